@@ -1,5 +1,22 @@
+"""C08: every value crossing a declared interface conforms to its schema; no internal 'bug:' errors."""
+import check_c13
 import family
 
 
+def loop_items(ctx):
+    """loop steps whose items fail in every way: the loop's engine-generated failed.error / outputs.success values
+    are referenced by workflow outputs and must conform to the schemas the loop's lifecycle declares"""
+    def f(rng):
+        items = []
+        for n, par, outs in [(3, 2, ['success', 'error', 'success']), (2, 1, ['crash', 'success']), (3, 3, ['error', 'error', 'error']),
+                             (1, 1, ['success']), (4, 2, ['success', 'success', 'crash', 'error'])]:
+            items.append(check_c13.loop_item(rng, n, par, outs))
+        items.append(check_c13.loop_item(rng, 2, 2, ['alt', 'success'], with_alt=True))
+        if not ctx.quick:
+            items += check_c13.items_for(ctx)(rng)[:60]
+        return items
+    return f
+
+
 def run(ctx):
-    family.run_family_check(ctx, 'C08', n_quick=40, n_thorough=400)
+    family.run_family_check(ctx, 'C08', n_quick=40, n_thorough=400, extra_items=loop_items(ctx))
